@@ -285,6 +285,15 @@ impl Property for C13 {
         match c.cancel % 3 {
             1 => {
                 ensure!(res.is_err(), "a raised cancellation flag makes the planner return an error instead of a path", "flag raised before the call, got a path of {} nodes", res.as_ref().map(|p| p.len()).unwrap_or(0));
+                // the flag belongs to the caller: it stays raised, and every further call given the same flag is refused as well
+                ensure!(stop.load(Ordering::SeqCst), "a raised cancellation flag makes the planner return an error instead of a path", "the planner lowered the caller's cancellation flag");
+                for n in 0..2 {
+                    rs_opw_kinematics::verif_hooks::seed_rng(c.rng_seed.wrapping_add(n + 1));
+                    let again = no_panic(|| planner.plan_rrt(&start, &goal, &robot, &stop));
+                    rs_opw_kinematics::verif_hooks::clear_rng();
+                    let again = again.map_err(|m| viol!("planning never panics", "plan_rrt: {}", m))?;
+                    ensure!(again.is_err(), "a raised cancellation flag makes the planner return an error instead of a path", "call #{} with the same, still raised flag returned a path of {} nodes", n + 2, again.as_ref().map(|p| p.len()).unwrap_or(0));
+                }
                 ctx.class("cancel:before -> Err");
                 ctx.nontrivial();
                 return Ok(());
